@@ -115,7 +115,7 @@ def check_case(case, ctx, h=None):
         raise Violation(case, 'script inside the domain was refused: %s' % got['refused'], observed=got, expected=_short(exp))
     nexec = len(exp['trace'])
     cls = case.get('cls') or 'grammar'
-    nontriv = nexec >= 3 or cls in ('operand', 'enum1', 'enum2', 'long', 'deep-if')
+    nontriv = nexec >= 3 or cls in ('operand', 'enum1', 'enum2', 'long', 'deep-if', 'p2sh-shape')
     ctx.case(key, nontriv, dict(case_json(case), outcome=exp['err'] or 'ok', ops=nexec), cls)
     ctx.count('outcome:' + (exp['err'] or 'ok'))
     ctx.count('sv:%d' % case['sv'])
@@ -227,6 +227,19 @@ def long_cases(draw):
 
 
 @st.composite
+def p2sh_shape_cases(draw):
+    """scripts of the pay-to-script-hash shape (HASH160 <20 bytes> EQUAL) with the preimage on the stack: as a legacy script under the P2SH flag the
+    preimage is then run as a script; as a witness script / tapscript leaf, or without the flag, the shape means nothing"""
+    inner = draw(st.one_of(st.sampled_from([b'\x51', b'\x00', b'\x6a', b'\x51\x51\x93', b'\x75\x51', b'\x63\x51\x68', b'', b'\xff', b'\x4c', b'\x52\x53\x94']), st.binary(max_size=12), G.grammar_script(max_ops=8).map(lambda t: t[0])))
+    h = R.ripemd(R.sha256(inner))
+    if draw(st.integers(0, 7)) == 0:
+        h = bytes(20)
+    below = [draw(G.small_values) for _ in range(draw(st.integers(0, 3)))]
+    stack = below + ([inner] if draw(st.integers(0, 9)) else [])
+    return dict(script=b'\xa9\x14' + h + b'\x87', stack=stack, flags=draw(G.flagsets()) | (F['P2SH'] if draw(st.integers(0, 3)) else 0), sv=draw(st.sampled_from(G.SIGVERS)), tx=None, cls='p2sh-shape')
+
+
+@st.composite
 def deep_if_cases(draw):
     """conditional nesting far deeper than the grammar generator goes: D nested IF/NOTIF (tapscript has no operation limit, so hundreds of
     levels are legal there; legacy / v0 stop at the 201-operation limit), the first false branch at a chosen level or nowhere, ELSE at a
@@ -266,6 +279,10 @@ def deep_if_cases(draw):
 
 
 # ------------------------------------------------------------------ worker tasks
+def w_p2sh_shape(ctx, wid, seed, examples):
+    core.hyp_campaign(ctx, 'p2sh-shape', p2sh_shape_cases(), check_case, examples, seed, case_json)
+
+
 def w_deep_if(ctx, wid, seed, examples):
     core.hyp_campaign(ctx, 'deep-if', deep_if_cases(), check_case, examples, seed, case_json)
 
@@ -345,6 +362,7 @@ def run(tier, t0):
     tasks += [(w_raw, dict(examples=r)) for _ in range(max(2, W // 4))]
     tasks += [(w_long, dict(examples=max(40, r // 8))) for _ in range(max(2, W // 4))]
     tasks += [(w_deep_if, dict(examples=max(60, r // 8))) for _ in range(2)]
+    tasks += [(w_p2sh_shape, dict(examples=max(300, r))) for _ in range(2)]
     m = core.parallel(PID, tasks)
     m.exhaustive = False
     extra = dict(enumerated='all 256 one-letter scripts x %d stacks x 3 versions x %d flag sets; two-letter scripts: %s' % (
